@@ -225,6 +225,12 @@ def run_job(job):
                 # (d) crafted non-reduced representatives, field by field
                 if wi == 0:
                     for name, off, ln, cls in sz.fields(kind):
+                        if cls == "P" and sz.ke == "x25519":
+                            # Curve25519 keys shifted by a small-order point: valid, different keys that a decoder which
+                            # "normalises" its input would map onto the genuine one
+                            for var in c25519.x_torsion_variants(v[off:off + ln]):
+                                stats["alias_probes"] += 1
+                                probe(kind, v[:off] + var + v[off + ln:], "%s := key shifted by a small-order point" % name)
                         if cls in "EP":
                             grp = sz.oprf if cls == "E" else sz.ke
                             for can, aliases in small_alias_elems(grp):
